@@ -395,6 +395,10 @@ func merge(prop, tier string, seed int64, def checkDef, results []workerResult, 
 			}
 		}
 	}
+	if def.RacePart || def.Race {
+		counters["race_reports"] += 0 // shown even when the detector stayed silent
+		counters["race_detector_workers"] = int64(def.RaceN)
+	}
 	if rc := counters["race_reports"]; rc > 0 {
 		nviol += int(rc)
 		viol = append(viol, vkit.Witness{Property: prop, Kind: "data-race", Detail: fmt.Sprint(extra["race_log"]), Tier: tier, Seed: seed, Case: -1})
